@@ -389,6 +389,8 @@ for _p in ('C12', 'C10', 'C04'):
                                        'fold_getScopes'], ['cltree.to_pc.loop', 'cltree.get_scopes.loop'])
     _add(_p, 'DeeprobModel.Props.E2EToPc', 'Deeprob.E2EToPc', ['e2e_to_pc_loop', 'e2e_to_pc', 'e2e_get_scopes'], [])
     _add(_p, 'DeeprobModel.Lemmas.PostOrderLemmas', 'Deeprob.PostOrder', ['walk_subtree', 'run_eq_fold', 'distinct_ids_needed'], [])
+# round 5: completeness of the modelled is_arborescence (the bound of the component search loses nothing; every document graph is GraphOK)
+_add('C13', 'DeeprobModel.Props.C13Arb', 'Deeprob.GraphIo', ['isArborescence_complete', 'isArborescence_iff', 'graphOfDoc_ok', 'cltDecode_tree_test_iff'], [])
 # round 5: the Gaussian leaf (density as SciPy evaluates it, normalisation, mode, raw moments of every order as integrals)
 _GT = 'Deeprob.GaussTheory'
 _add('C01', 'DeeprobModel.Props.GaussTheory', _GT, ['gauss_exp_logpdf', 'gauss_integral_one', 'gaussPdf_pos'], [])
